@@ -225,6 +225,7 @@ def run(ctx, out, tier):
         check_once(ctx, out, dv, rule="C13.once")
     else:
         out.inst("C13.once", 0, 4)
+    shared.check_raw_patterns(ctx, out, "C13.rawpattern")
     from rules.shared import check_detect_cases
     check_detect_cases(ctx, out, ["affects", "keep-sorted", "keep-unique", "line-pattern", "line-count", "check-lua", "check-ai"], rule="C13.detectcase")
     for nm in ctx.roles()["validators"]:
